@@ -38,6 +38,59 @@ CLAIMED = {
              'raising single-element mutator leaves the state equal (extensional maps: equal lookups). Lane: error-directed '
              'histories, full snapshot before/after every raising call.',
         note=_COMMON_NOTE),
+    'C04': dict(
+        technique='Lean 4 proof (cache coherence invariant over the decorator-wrapper semantics for arbitrary interleavings + '
+                  'decided obligations over a decorator/writer table regenerated from the source) with differential '
+                  'correspondence against fresh never-queried copies',
+        text='Theorems: Coherent (every memoised field is empty or holds what its reader would compute now) holds initially, is '
+             'preserved by every reader and by every public mutator including raising paths (the wrapper does not reset on a '
+             'raise, but every write is followed by the normal return of some decorated call), hence every cached reader on any '
+             'history equals the reader on a fresh object. Generated obligations (decide over the table extracted with ast each '
+             'run): every direct index writer is covered by a decorated method, cached fields are a subset of cleared fields in '
+             'both classes, no mutator reaches a memoising reader. Lane: query-mutate-query with every mutator (ok / raise / '
+             'raise after nested reset) and every cached reader, compared with from_dict(to_dict(g)).',
+        note=_COMMON_NOTE + 'time-series computations (minimal / stationary) enter the cache model as parameters.'),
+    'C05': dict(
+        technique='Lean 4 proof (from_dict(to_dict g) = g as equality of extensional states; idempotence; class conversions '
+                  'characterised) with differential correspondence through json.dumps/loads',
+        text='Theorems: from_dict(to_dict(g)) = g (validate off; on under acyclicity; cyclic refused), include_meta=False erases '
+             'user metadata only, second serialisation identical, to_dict is a function of the two maps (construction order '
+             'irrelevant), Skeleton round trip, plain->time-series conversion succeeds iff every name parses and no directed '
+             'edge runs against time and then preserves identifiers, variable and edge types, user metadata minus the two '
+             'reserved keys, every time-respecting edge unchanged (others swapped); time-series->plain preserves everything; '
+             'from_causal_graph. Enum texts are proved equal to a table regenerated from type_definitions.py each run.',
+        note=_COMMON_NOTE + 'json itself is trusted; metadata values are opaque canonical JSON texts in the model. Extra hypothesis '
+                            'PlainNorm (plain-class node records carry no variable/lag), true of every reachable state.'),
+    'C07': dict(
+        technique='Lean 4 proof (__eq__ transcribed incl. the raising reversed-pair fallback; characterised as a structural '
+                  'equivalence) with differential correspondence on edited pairs; direction-agnostic type list regenerated from source',
+        text='Theorems: graph __eq__ never raises; it is true iff same identifiers and per unordered pair the same type with '
+             'matching orientation unless the type is one of the generated direction-agnostic list (pinned to --, <>, oo); '
+             'reflexive, symmetric, transitive; != is the negation; deep equality adds variable types and node/edge metadata and '
+             'implies shallow; the same for Skeleton, Node, Edge. Lane: (g, edit g) pairs over ten edit kinds, both classes, both '
+             'argument orders, thorough: all pairs on 2 nodes and edit-distance <= 2 on 3 nodes.',
+        note=_COMMON_NOTE),
+    'C08': dict(
+        technique='Lean 4 proof (entry law, exact refusal conditions, matrix / networkx / skeleton round trips, malformed input '
+                  'refused for all inputs) with differential correspondence, exhaustive on small matrices',
+        text='Theorems: A[i][j]=1 iff directed i->j or undirected i--j under the sorted node order; to_numpy / to_networkx / GML '
+             'refuse exactly the unrepresentable graphs (no edge dropped or retyped); from_adjacency_matrix(*to_numpy g) and the '
+             'networkx / skeleton round trips rebuild the same nodes, directed edges and undirected pairs, both classes; '
+             'non-2D / non-square / non-binary / wrong name count refused for every input; a validated constructor accepts '
+             'exactly the acyclic inputs; lagged-matrix entry law. The lagged round trip through from_adjacency_matrices is '
+             'stated (fromAdjMatrices_toNumpyByLag_statement) but not proved: partial, covered by the lane only.',
+        note=_COMMON_NOTE + 'GML text layer trusted (labels "()" and "[]" are mangled by networkx and excluded); numpy / '
+                            'networkx.to_numpy_array assumed.'),
+    'C09': dict(
+        technique='Lean 4 proof (skeleton as a function of the current state: one undirected edge per adjacent pair, symmetric '
+                  'adjacency, orientation-agnostic queries, round trips) with differential correspondence through a handle taken '
+                  'before the history',
+        text='Theorems (under WF): skeleton nodes = graph nodes with variable types; exactly one -- edge per adjacent pair and '
+             'nothing else; adjacency matrix symmetric with 1 iff adjacent (proved on the literal two-writes loop); edge_exists / '
+             'get_edge / get_neighbors ignore orientation; dictionary and matrix round trips. Liveness is definitional (the '
+             'skeleton is a function of the state). Lane: handle obtained before a random history, every reader re-read after '
+             'every mutation, round trips incl. copy().',
+        note=_COMMON_NOTE),
     'C06': dict(
         technique='Lean 4 proof (location-labelled object model with a monotone allocator: every export / derived graph is '
                   'allocated fresh and separated from the graph heap) with differential correspondence on id()-sharing '
@@ -93,6 +146,26 @@ CLAIMED = {
              '(incl. the empty graph after the D14 repair). Lane: histories aimed at time violations, plain graphs with '
              'violating edges converted, random lagged DAGs.',
         note=_COMMON_NOTE + 'networkx tie-breaking is not modelled: the default order is validated by predicate.'),
+    'C18': dict(
+        technique='Lean 4 proof (confounder search transcribed with cumulative pruning: subset of common ancestors, symmetry, '
+                  'input refusal; sufficiency refuted by a proved counter-example) with differential correspondence, exhaustive '
+                  'on small DAGs',
+        text='Theorems for every edge list: every returned node is a strict ancestor of both nodes; the answer is symmetric; '
+             'empty iff no common ancestor after pruning (DAG); non-DAG / unknown node / x = y refused in the code\'s order. The '
+             'sufficiency clause of the property is FALSE on the unchanged code (known finding D12): sufficiency_false is proved '
+             'at the 6-edge witness; the lane matches every sufficiency failure against three minimal cores.',
+        note=_COMMON_NOTE + 'partial: the sufficient-adjustment-set clause does not hold (D12, recorded, not repaired: any repair '
+                            'changes documented outputs).'),
+    'C19': dict(
+        technique='Lean 4 proof (mediators = exact set characterisation; instruments: ancestor, no path avoiding the source, '
+                  'no confounding, and the full d-separation criterion) with differential correspondence over several hash seeds',
+        text='Theorems: identify_mediators returns exactly the nodes strictly inside every directed path of length >= 2 that no '
+             'confounder reaches avoiding the source; empty when reversed; identify_instruments: every instrument is a strict '
+             'ancestor of the source, every directed path to the destination passes through the source, it shares no '
+             'confounder with the destination, and it is d-separated from the destination once the edges leaving the source '
+             'are removed (instruments_dsep, proved in full); the max_num_paths error is characterised. Lane: all DAGs <= 4 + '
+             'samples (quick) / all on 5 + 6-node shapes (thorough), PYTHONHASHSEED 0-3.',
+        note=_COMMON_NOTE),
     'C20': dict(
         technique='Lean 4 proof (Markov boundary shields and is minimal, against the same d-separation definition as C11; '
                   'collider characterisation) with differential correspondence, exhaustive on small graphs',
@@ -105,8 +178,9 @@ CLAIMED = {
 }
 
 _P = 'check under construction in this round (model/lane/theorems not yet integrated); not claimed until its central theorem is proved and its lane is clean'
-NOT_CLAIMED = {k: _P for k in ['C04', 'C05', 'C07', 'C08', 'C09', 'C14', 'C15', 'C16', 'C17', 'C18',
-                               'C19']}
+_P2 = ('model (lean/CG/Model/TS.lean) and lane exist and are clean (./check runs), but the property theorems are still being '
+       'proved; not claimed until the central theorem is proved')
+NOT_CLAIMED = {k: _P2 for k in ['C14', 'C15', 'C16', 'C17']}
 
 try:
     import subprocess
